@@ -30,9 +30,12 @@ RESERVED = set("()~'\" \t\r\n")
 
 # ------------------------------------------------------------------ flow specs
 def _http(method="GET", scheme="http", host="example.com", port=80, path="/", hosthdr=None, qh=(), qbody=b"",
-          resp=None, ws=None, **kw):
+          resp=None, ws=None, qenc=None, qraw=None, **kw):
+    """qbody / resp body: the content the filters are documented to look at (the decoded body, or the bytes as they
+    are where the declared Content-Encoding does not decode them).  enc: encode that content for the wire with this
+    coding; raw: put exactly these bytes on the wire (content-encoding header that does not fit them)."""
     d = dict(type="http", method=method, scheme=scheme, host=host, port=port, path=path, hosthdr=hosthdr,
-             req_headers=list(qh), req_body=qbody, resp=resp, ws=ws)
+             req_headers=list(qh), req_body=qbody, req_enc=qenc, req_raw=qraw, resp=resp, ws=ws)
     d.update(_common(**kw))
     return d
 
@@ -42,8 +45,23 @@ def _common(marked="", comment="", metadata=(), replay=None, error=False, src=("
     return dict(marked=marked, comment=comment, metadata=list(metadata), replay=replay, error=error, src=src, dst=dst)
 
 
-def _resp(code=200, headers=(), body=b"", enc=None):
-    return dict(code=code, headers=list(headers), body=body, enc=enc)
+def _resp(code=200, headers=(), body=b"", enc=None, raw=None):
+    return dict(code=code, headers=list(headers), body=body, enc=enc, raw=raw)
+
+
+def _wire(body, enc, raw):
+    """bytes on the wire for a spec body (standard library codecs only)"""
+    if raw is not None or body is None:
+        return raw if raw is not None else None
+    if enc == "gzip":
+        import gzip
+        return gzip.compress(body, mtime=0)
+    if enc == "deflate":
+        import zlib
+        return zlib.compress(body)
+    if enc is None:
+        return body
+    raise ValueError(enc)
 
 
 def _msgs(type_, messages, **kw):
@@ -59,6 +77,10 @@ def _dns(qname="dns.google", resp=False, **kw):
 
 
 CT = b"content-type"
+CE = b"content-encoding"
+_NOTGZ = b"this is not gzip, secret 77"
+_TRUNC_GZ = bytes.fromhex("1f8b08000000000002ff") + b"\xff\xff\xff\xff garbage 55"   # gzip header followed by an invalid deflate stream
+_TRUNC_DEFL = b"x\x9c\xcbH\xcd\xc9"                                                     # zlib stream cut off
 
 SPECS = [
     _http(),
@@ -98,6 +120,18 @@ SPECS = [
     _http("GET", "http", "example.com", 8080, "/path with space", resp=_resp(418, [(CT, b"text/teapot")], b"I'm a teapot"), dst=("example.com", 8080)),
     _http("PATCH", "http", "EXAMPLE.COM", 80, "/UPPER/Case", qh=[(CT, b"Text/Plain")], qbody=b"MiXeD CaSe", resp=_resp(200, [(CT, b"text/plain")], b"DONE")),
     _http("GET", "http", "tilde.example.com", 80, "/~user/index.html", resp=_resp(200, [(CT, b"text/html")], b"back\\slash and ~tilde and 'single' \"double\"")),
+    # Content-Encoding headers that do not fit the bytes: the body filters look at the bytes as they are
+    _http("GET", "http", "enc1.example.com", 80, "/notgzip", resp=_resp(200, [(CT, b"text/plain"), (CE, b"gzip")], _NOTGZ, raw=_NOTGZ)),
+    _http("POST", "http", "enc2.example.com", 80, "/notbr", qh=[(CT, b"application/json"), (CE, b"br")], qbody=b'{"plain": "json 42"}', qraw=b'{"plain": "json 42"}',
+          resp=_resp(200, [(CT, b"text/html"), (CE, b"zstd")], b"<html>hello zstd-less</html>", raw=b"<html>hello zstd-less</html>")),
+    _http("GET", "http", "enc3.example.com", 80, "/corrupt-gzip", resp=_resp(200, [(CT, b"text/html"), (CE, b"gzip")], _TRUNC_GZ, raw=_TRUNC_GZ), error=True),
+    _http("PUT", "http", "enc4.example.com", 80, "/unknown", qh=[(CE, b"x-rot13")], qbody=b"uryyb jbeyq 200", qraw=b"uryyb jbeyq 200",
+          resp=_resp(200, [(CE, b"deflate")], _TRUNC_DEFL, raw=_TRUNC_DEFL)),
+    _http("POST", "http", "enc5.example.com", 80, "/charset-as-coding", qh=[(CE, b"utf8")], qbody=b"hello text", qraw=b"hello text",
+          resp=_resp(200, [(CE, b"identity")], b"identity body 7", raw=b"identity body 7")),
+    # ... and ones that fit
+    _http("POST", "http", "enc6.example.com", 80, "/gzip-request", qh=[(CT, b"text/plain"), (CE, b"gzip")], qbody=b"zipped request hello 99", qenc="gzip",
+          resp=_resp(201, [(CT, b"text/plain"), (CE, b"deflate")], b"deflated response me 31", enc="deflate")),
     _msgs("tcp", [(True, b"hello"), (False, b"it's me")], dst=("mail.example.com", 25)),
     _msgs("tcp", [(True, b"EHLO client\r\n"), (False, b"250 OK 200\r\n")], error=True, marked=":red_circle:", dst=("mail.example.com", 587)),
     _msgs("tcp", [], comment="empty tcp", src=("10.0.0.9", 1)),
@@ -138,15 +172,13 @@ def build_flow(s):
         if s["hosthdr"]:
             hdrs.insert(0, (b"Host", s["hosthdr"].encode()))
         req = http.Request(s["host"], s["port"], s["method"].encode(), s["scheme"].encode(), b"", s["path"].encode("utf-8"),
-                           b"HTTP/1.1", http.Headers(hdrs), s["req_body"], None, 946681200, 946681201)
+                           b"HTTP/1.1", http.Headers(hdrs), _wire(s["req_body"], s["req_enc"], s["req_raw"]), None,
+                           946681200, 946681201)
         f = http.HTTPFlow(cc, sc)
         f.request = req
         if s["resp"] is not None:
             r = s["resp"]
-            raw = r["body"]
-            if raw is not None and r["enc"] == "gzip":
-                import gzip
-                raw = gzip.compress(raw, mtime=0)
+            raw = _wire(r["body"], r["enc"], r["raw"])
             # raw_content is passed directly: the `content` setter would add/modify headers behind the spec's back
             resp = http.Response(b"HTTP/1.1", r["code"], b"X", http.Headers(list(r["headers"])), raw, None, 946681202, 946681203)
             f.response = resp
